@@ -3361,7 +3361,13 @@ class TensorDict(TensorDictBase):
                 ),
                 source={},
                 names=(
-                    (self.names if self._has_names() else None)
+                    (
+                        self.names
+                        # the dim names only apply if the number of batch dims is unchanged
+                        if self._has_names()
+                        and (batch_size is None or len(batch_size) == self.batch_dims)
+                        else None
+                    )
                     if names is NO_DEFAULT
                     else names
                 ),
